@@ -32,6 +32,34 @@ var c09Numbers = []string{"0", "1", "-1", "+1", "10", "007", "32", "64", "1024",
 	"18446744073709551615", "18446744073709551616", "99999999999999999999", "-99999999999999999999", "+99999999999999999999",
 	"000000000000000000000001", "123456789012345678901234567890", "1e3", "0x10", "1_000", "１２", "1.5", "", "-", "+", "--1", "+-1"}
 
+// c09SizedValues: regexp-valid option values whose length straddles the size limits of the code in
+// bytes AND in runes: long ASCII (79, 80, 81, 200, 5000 bytes), 20-100 runes of 2-, 3- and 4-byte
+// characters, mixtures with ASCII, combining marks; plus a few that are not valid UTF-8 (rejected
+// by regexp.Compile: they exercise the error path only).
+var c09SizedValues = func() []string {
+	var out []string
+	for _, n := range []int{79, 80, 81, 200, 5000} {
+		out = append(out, strings.Repeat("a", n))
+	}
+	for _, ch := range []string{"é", "日", "😀"} {
+		for _, n := range []int{20, 26, 27, 28, 30, 40, 41, 60, 77, 79, 80, 81, 100} {
+			out = append(out, strings.Repeat(ch, n))
+		}
+	}
+	out = append(out, strings.Repeat("a日", 30), strings.Repeat("日a", 41), "main|"+strings.Repeat("é", 45), strings.Repeat("e\u0301", 30), strings.Repeat("e\u0301", 45),
+		strings.Repeat("a", 78)+"日", strings.Repeat("a", 79)+"日", strings.Repeat("a", 80)+"日", "(?i)"+strings.Repeat("Ж", 50), "^("+strings.Repeat("語|", 30)+"x)$",
+		strings.Repeat("\xff", 90), strings.Repeat("日", 26)+"\xe6", strings.Repeat("é", 40)+"\xc3")
+	return out
+}()
+
+// c09Rx draws a regexp-like option value: mostly from the small pool, sometimes a sized value.
+func c09Rx(r *Rng) string {
+	if r.Chance(15) {
+		return c09SizedValues[r.Intn(len(c09SizedValues))]
+	}
+	return c09Rx(r)
+}
+
 // c09TagValue draws a -tagfocus/-tagignore value: ranges (the four documented forms and near
 // misses), out-of-int64 numbers, key=value forms, regexps. big=false keeps every number inside
 // int64 (the stream that cannot trigger the ParseInt overflow finding).
@@ -62,7 +90,10 @@ func c09TagValue(r *Rng, big bool) string {
 	case 4:
 		v = q() + ":" + q() + ":" + q()
 	case 5:
-		v = c09Regexps[r.Intn(len(c09Regexps))]
+		v = c09Rx(r)
+		if !big && c09HasLongDigits(v) {
+			v = "main"
+		}
 	case 6:
 		v = c09Regexps[r.Intn(len(c09Regexps))] + "," + c09Regexps[r.Intn(len(c09Regexps))]
 	case 7:
@@ -191,6 +222,9 @@ func c09OptionValue(r *Rng, f c09Field, sampleTypes []string, big bool) string {
 		}
 		return r.Pick([]string{"", "CUM", "cum ", "line", "x"})
 	}
+	if r.Chance(8) { // every string-valued option, whatever its meaning
+		return c09SizedValues[r.Intn(len(c09SizedValues))]
+	}
 	switch f.name {
 	case "tagfocus", "tagignore":
 		return c09TagValue(r, big)
@@ -224,7 +258,7 @@ func c09OptionValue(r *Rng, f c09Field, sampleTypes []string, big bool) string {
 // characters (in-process scripted UI only). It never produces a line that quits the session.
 func c09ScriptLine(r *Rng, sampleTypes []string, big, ctl bool) string {
 	rx := func() string {
-		s := c09Regexps[r.Intn(len(c09Regexps))]
+		s := c09Rx(r)
 		if strings.ContainsAny(s, " \t") || s == "" {
 			return "main"
 		}
@@ -525,7 +559,7 @@ func c09CLIArgs(r *Rng, sampleTypes []string, big bool) []string {
 		cmd = r.Pick([]string{"top", "text", "tree", "tags", "traces", "raw", "dot", "peek", "list", "callgrind", "topproto", "comments"})
 	}
 	if c09ParamCommands[cmd] {
-		args = append(args, "-"+cmd+"="+c09Regexps[r.Intn(len(c09Regexps))])
+		args = append(args, "-"+cmd+"="+c09Rx(r))
 	} else {
 		args = append(args, "-"+cmd)
 	}
@@ -594,7 +628,7 @@ func c09Query(r *Rng, sampleTypes []string, big bool) string {
 		case "si":
 			v = c09OptionValue(r, c09Field{"sample_index", "string"}, sampleTypes, big)
 		default:
-			v = c09Regexps[r.Intn(len(c09Regexps))]
+			v = c09Rx(r)
 		}
 		switch r.Intn(10) {
 		case 0:
@@ -969,6 +1003,12 @@ func c09GridCases() []*c09Case {
 	add := func(args []string) {
 		a := append(append([]string{}, args...), "-symbolize=none", "-output=grid.out")
 		out = append(out, &c09Case{Kind: "cli", Profile: ph, Args: hexAll(a), Text: fmt.Sprintf("grid: pprof %q <grid profile: diamond a/b->c, recursion, inlining, a negative sample>", a)})
+	}
+	// every string-valued option x every sized value (byte and rune lengths around the limits)
+	for _, o := range []string{"focus", "ignore", "hide", "show", "show_from", "prune_from", "tagfocus", "tagignore", "tagshow", "taghide", "tagroot", "tagleaf", "unit", "trim_path", "source_path"} {
+		for _, v := range c09SizedValues {
+			add([]string{"-top", "-" + o + "=" + v})
+		}
 	}
 	for _, c := range cmds {
 		for _, o := range opts {
